@@ -57,6 +57,82 @@ def _dd(da):
     return min(x, 360 - x)
 
 
+PART_HEADS = {"ptm1": 1, "ptm1_smooth": 1, "ptm2": 2, "ptm3": 0}
+
+
+def sort_parts(c, heads):
+    """Partitions with (exactly) equal Hs may come in either order (np.argsort is not stable and basin numbering depends on
+    the scan order): compare the swells as a set by putting them into a canonical order per position."""
+    if "part" not in c["dims"]:
+        return c
+    v = c["vals"]
+    ax = c["dims"].index("part")
+    v = np.moveaxis(v, ax, 0)
+    lead = [d for d in c["dims"] if d not in ("part", "freq", "dir")]
+    nlead = len(lead)
+    shp = v.shape
+    flat = v.reshape((shp[0], int(np.prod(shp[1:1 + nlead])) if nlead else 1, -1))
+    out = flat.copy()
+    for k in range(flat.shape[1]):
+        tail = [flat[i, k] for i in range(heads, flat.shape[0])]
+        tail.sort(key=lambda a: (-np.nansum(a), np.nan_to_num(a, nan=-1.0).tobytes()))
+        for i, a in enumerate(tail):
+            out[heads + i, k] = a
+    c = dict(c)
+    c["vals"] = np.moveaxis(out.reshape(shp), 0, ax)
+    return c
+
+
+def weak_angle_positions(op, da):
+    """Boolean array over the leading dims: True where the angle returned by `op` is ill-conditioned (moment vector of
+    near-zero length, or tied maxima for dp) so that storage variants may legitimately differ."""
+    lead = [d for d in da.dims if d not in ("freq", "dir")]
+    x = da.transpose(*lead, "freq", "dir")
+    E = np.asarray(x.values, dtype=float)
+    dirs = np.asarray(da.dir.values, dtype=float)
+    a = np.radians(270.0 - dirs)
+    s, c = np.sin(a), np.cos(a)
+    if op == "dp":
+        cs = E.sum(axis=-2)
+        srt = np.sort(cs, axis=-1)[..., ::-1]
+        return (srt[..., 0] - srt[..., 1] <= 1e-9 * np.maximum(srt[..., 0], 1e-300)) if cs.shape[-1] > 1 else np.zeros(cs.shape[:-1], bool)
+    if op == "dm":
+        vs, vc, tot = (E * s).sum(axis=(-1, -2)), (E * c).sum(axis=(-1, -2)), E.sum(axis=(-1, -2))
+        return np.hypot(vs, vc) <= 1e-6 * np.maximum(tot, 1e-300)
+    if op in ("dpm",):
+        S = E.sum(axis=-1)
+        out = np.zeros(S.shape[:-1], bool)
+        for idx in np.ndindex(*S.shape[:-1]):
+            Sr = S[idx]
+            pk = [q for q in range(1, len(Sr) - 1) if Sr[q - 1] < Sr[q] > Sr[q + 1]]
+            if not pk:
+                continue
+            p = max(pk, key=lambda q: (Sr[q], -q))
+            row = E[idx][p]
+            out[idx] = np.hypot((row * s).sum(), (row * c).sum()) <= 1e-6 * max(row.sum(), 1e-300)
+        return out
+    return None
+
+
+def mask_positions(c, lead, mask):
+    """Set the values at the masked leading positions to NaN in a canonical result (same mask on both sides of a comparison)."""
+    if mask is None or not np.any(mask):
+        return c
+    dims = [d for d in c["dims"]]
+    order = [d for d in EXTRA_ORDER if d in lead] + sorted(d for d in lead if d not in EXTRA_ORDER)
+    m = np.asarray(mask)
+    if m.ndim:
+        m = np.transpose(m, [lead.index(d) for d in order]) if lead else m
+    v = c["vals"].copy()
+    if all(d in dims for d in order) and v.shape[:len(order)] == m.shape:
+        v[m] = np.nan
+    elif not order:
+        v[...] = np.nan
+    c = dict(c)
+    c["vals"] = v
+    return c
+
+
 def canon(res, sort_dir=True):
     """Canonical labelled form: list of (name, dims, coords, values) with dims in a fixed order and directions sorted by label."""
     import xarray as xr
